@@ -131,6 +131,16 @@ func (a *Announce) updateInterfaces() {
 				level.Error(l).Log("op", "createNDPResponder", "error", err, "msg", "failed to create NDP responder")
 				continue
 			}
+			// The new responder has to listen for the addresses that are
+			// already announced, SetBalancer only watches new ones.
+			for ipStr, refcnt := range a.ipRefcnt {
+				if refcnt <= 0 {
+					continue
+				}
+				if err := resp.Watch(net.ParseIP(ipStr)); err != nil {
+					level.Error(l).Log("op", "watchMulticastGroup", "error", err, "ip", ipStr, "msg", "failed to watch NDP multicast group for IP, NDP responder will not respond to requests for this address")
+				}
+			}
 			a.ndps[ifi.Index] = resp
 			level.Info(l).Log("event", "createNDPResponder", "msg", "created NDP responder for interface")
 		}
